@@ -11,7 +11,7 @@ import tempfile
 from harness import crashio
 from harness.chainlab import Universe, Tree, SCRIPTS, SLOTS, FUNDING, CB
 from harness.crashio import CTL, CrashNow
-from harness.detloop import VirtualLoop, Gate
+from harness.detloop import VirtualLoop, Gate, NoProgress
 
 UNI = None
 
@@ -122,6 +122,14 @@ class IndexRun:
             @classmethod
             def prefetch_limit(cls, height):
                 return lab.prefetch
+
+            @classmethod
+            def hashX_from_script(cls, script):
+                # (a lab may place chosen scripts in chosen 2-byte hashX prefixes: in a real database every prefix
+                # is populated, which a universe of a handful of scripts cannot show otherwise)
+                hx = super().hashX_from_script(script)
+                pre = getattr(lab, 'hashx_prefix', {}).get(bytes(script))
+                return pre + hx[2:] if pre else hx
         env.coin = Coin
         return env
 
@@ -204,6 +212,17 @@ class IndexRun:
         self.bp = self.db = self.loop = None
 
     def cleanup(self):
+        # a flush job a lab has parked in a real thread must not outlive the run (the run may have ended abnormally)
+        for attr in ('window', 'parked'):
+            w = getattr(self, attr, None)
+            if w:
+                try:
+                    w['ctl']['resume'].set()
+                    w['thread'].join(timeout=10)
+                except Exception:      # pylint:disable=broad-except
+                    pass
+                setattr(self, attr, None)
+        CTL.park = None
         self.abandon()
         crashio.uninstall()
         shutil.rmtree(self.dir, ignore_errors=True)
@@ -277,6 +296,25 @@ class IndexRun:
             except Exception:
                 hdrs.append(-7)
         view['hdrs'] = hdrs
+        # header merkle proofs (served with cp_height): the cache is populated once, as the controller does after the
+        # first catch-up, and from then on lives through every reorg; expected roots are computed here from the headers
+        # read above (which ChainIsPath ties to the chain)
+        hp = 1
+        if st.height >= 0 and -9 not in hdrs and -8 not in hdrs and -7 not in hdrs:
+            from harness.props.proofs import fold, root_of
+            hashes = [self.tree.blocks[b].hash for b in hdrs]
+            try:
+                if not db.header_mc.initialized.is_set():
+                    await db.populate_header_merkle_cache()
+                for cp in sorted({st.height, max(st.height - 1, 0)}):
+                    for idx in sorted({0, cp}):
+                        branch, root = await asyncio.wait_for(db.header_branch_and_root(cp + 1, idx), 5)
+                        got, _ = fold(hashes[idx], [x[::-1].hex() for x in branch], idx)
+                        if root != root_of(hashes[:cp + 1]) or got != root:
+                            hp = 0
+            except Exception:      # pylint:disable=broad-except
+                hp = -1
+        view['hproof'] = hp
         view['csx'] = sum(len(self.tree.blocks[b].raw) for b in hdrs if b in self.tree.blocks)
         # per-height tx hashes and tx number map
         byh = []
@@ -293,8 +331,20 @@ class IndexRun:
         view['nums'] = nums
         # UTXOs through all_utxos and lookup_utxos
         utxos = []
+
+        async def bounded(coro):
+            # all_utxos / limited_history retry for ever when a row names a tx number the files do not have; a read
+            # that does not resolve within 5 (virtual) seconds is recorded as such, and no oracle row matches it
+            try:
+                return await asyncio.wait_for(coro, 5)
+            except asyncio.TimeoutError:
+                return None
         for s, hx in sorted(self.hashx.items()):
-            for u in await db.all_utxos(hx):
+            got = await bounded(db.all_utxos(hx))
+            if got is None:
+                utxos.append([-1, -1, s, -1, -1])
+                continue
+            for u in got:
                 utxos.append([uni.slot_from_hash(u.tx_hash), u.tx_pos, s, u.value, u.height])
         view['utxos'] = sorted(utxos)
         pts = self.all_outpoints()
@@ -314,11 +364,16 @@ class IndexRun:
             if ahead:
                 full = [db.fs_tx_hash(n) for n in db.history.get_txnums(hx, limit=None) if n < st.tx_count]
             else:
-                full = await db.limited_history(hx, limit=None)
+                full = await bounded(db.limited_history(hx, limit=None))
+                if full is None:
+                    hist.append([s, [[-1, -1]]])
+                    continue
             hist.append([s, [[uni.slot_from_hash(h), ht] for h, ht in full]])
             if not ahead:
                 for lim in sorted({0, 1, 2, max(len(full) - 1, 0), len(full), len(full) + 1}):
-                    part = await db.limited_history(hx, limit=lim)
+                    part = await bounded(db.limited_history(hx, limit=lim))
+                    if part is None:
+                        part = [(b'', -1)]
                     lims.append([s, lim, [[uni.slot_from_hash(h), ht] for h, ht in part]])
         view['hist'] = hist
         view['lims'] = lims
@@ -392,8 +447,8 @@ class IndexRun:
                 CTL.enabled = saved
                 continue
             if not self.loop.advance():
-                raise RuntimeError('observer stuck')
-        raise RuntimeError('observer did not finish')
+                raise NoProgress('observer stuck')
+        raise NoProgress('observer did not finish')
 
     def record(self, ev, extra=None, force=False):
         sig = self.sig()
@@ -418,6 +473,8 @@ class IndexRun:
                 self.drive()
             except StopRun:
                 pass
+            except NoProgress as e:
+                self.steps.append(self.no_progress_step(e))
         finally:
             ops = list(CTL.log)
             fired = CTL.fired
@@ -426,6 +483,10 @@ class IndexRun:
                 'activation': self.activation, 'limit': self.reorg_limit, 'steps': self.steps,
                 'ops': len(ops), 'oplog': [(k, d) for _n, k, d in ops], 'fired': fired, 'died': self.died,
                 'flush_job_ops': list(getattr(self, 'flush_job_ops', []))}
+
+    def no_progress_step(self, e):
+        return {'ev': 'died', 'why': 'other', 'exc': f'the server cannot be driven any further: {e}'[:200], 'need': 0,
+                'shrunk': False, 'behind': False}
 
     def restart(self, why):
         self.died.append(why)
@@ -451,7 +512,7 @@ class IndexRun:
         while True:
             steps += 1
             if steps > 20000:
-                raise RuntimeError('driver: too many steps')
+                raise NoProgress('driver: too many steps')
             try:
                 self.loop.run_until_idle()
                 if self.task.done():
@@ -509,7 +570,7 @@ class IndexRun:
                 g.release()
                 continue
             if not self.loop.advance():
-                raise RuntimeError('driver: deadlock')
+                raise NoProgress('driver: deadlock')
 
 
 def run_scenario(events, **kw):
